@@ -382,7 +382,7 @@ func main() {
 			r.Notes = append(r.Notes, fmt.Sprintf("alphabet=%v depth<=%d", ops, depth))
 		}}}
 	for _, p := range pairs {
-		scs = append(scs, pairScenario(p, vrt.Bounds{Dev: 1, Seconds: 100}, vrt.Bounds{Dev: 2, Seconds: 900}))
+		scs = append(scs, pairScenario(p, vrt.Bounds{Dev: 1, Seconds: 100}, vrt.Bounds{Dev: 2, Seconds: 180}))
 	}
 	vrt.Main(scs)
 }
